@@ -97,6 +97,33 @@ def _intn(X, ins, argv):
 EXT['mod:math/rand.Intn'] = lambda V: {('ghost', 'rand_count', I), ('ghost', 'rand_last', I), ('ghost', 'rand_range', I)}
 
 
+@ext('math/rand.Perm')
+def _perm(X, ins, argv):
+    """trusted: a fresh slice of length n holding a permutation of 0..n-1 (every value in range, pairwise distinct); one
+    draw of the ghost log with range n (the n! outcomes are A-RAND)"""
+    w = X.w
+    S = w.Slice
+    n = argv[0]
+    X.oblige('pre', n >= 0, ins.get('pos', ''), label='rand.Perm.nonneg', text='rand.Perm panics if n < 0')
+    a = X.alloc_id('arr')
+    key = ('el', 'int')
+    E = X.heap.get(key)
+    A = w.fresh('perm', z3.ArraySort(I, I))
+    X.heap.set(key, z3.Store(E, a, A))
+    j = z3.Const('pm_j', I)
+    k = z3.Const('pm_k', I)
+    ixf = w.uf('ix', I, I, I)
+    w.ix_used = True
+    X.hyp(z3.ForAll([j], z3.Implies(z3.And(j >= 0, j < n), z3.And(A[ixf(0, j)] >= 0, A[ixf(0, j)] < n)), patterns=[A[ixf(0, j)]]))
+    X.hyp(z3.ForAll([j, k], z3.Implies(z3.And(j >= 0, j < k, k < n), A[ixf(0, j)] != A[ixf(0, k)]), patterns=[z3.MultiPattern(A[ixf(0, j)], A[ixf(0, k)])]))
+    for nm, v in (('rand_count', X.heap.get(('ghost', 'rand_count', I)) + 1), ('rand_range', n)):
+        X.heap.set(('ghost', nm, I), v)
+    return [S.mk_slice(a, 0, n, n)]
+
+
+EXT['mod:math/rand.Perm'] = lambda V: {('ghost', 'rand_count', I), ('ghost', 'rand_range', I), ('alloc', 'arr'), ('el', 'int')}
+
+
 @ext('math/rand.Float64')
 def _f64(X, ins, argv):
     r = X.w.fresh('rf', z3.RealSort())
